@@ -267,6 +267,27 @@ class Check:
             self.obligations.append((module, t, ax, True))
         return ok_all
 
+    TABLES = {   # bridge module -> theorems (lean/NfcVerif/Props/Tables*.lean)
+        "TablesDep": ["lr_table_bridge", "psl_brs_bridge"],
+        "TablesIso": ["fsc_table_bridge"],
+        "TablesSap": ["wks_map_bridge"],
+        "TablesPdu": ["pdu_type_map_bridge", "dlc_pdu_names_bridge"],
+        "TablesTag": ["tag_errno_bridge"],
+        "TablesFrame": ["pn53x_frame_constants_bridge"],
+    }
+
+    def tables(self, *modules):
+        """T-tie for constants: regenerate Gen/Tables.lean from the source and re-prove the bridge
+        theorems (source constant = model constant) of the named modules"""
+        import translate_tables
+        translate_tables.emit(REPO, os.path.join(LEAN, "NfcVerif", "Gen", "Tables.lean"))
+        self.trusted.append("harness/translate_tables.py (ast extraction of literal tables -> Gen/Tables.lean)")
+        ok = True
+        for m in modules:
+            ok = self.lean("NfcVerif.Props." + m, ["NfcVerif.Tables." + t for t in self.TABLES[m]],
+                           gen_dependent=True) and ok
+        return ok
+
     def leanchecker(self, modules):
         """thorough tier: independent re-check of the compiled .olean files"""
         cmd = ["lake", "env", "leanchecker"] + modules
